@@ -43,6 +43,7 @@ impl Callbacks for Cb {
         };
         let _g1 = rustc_middle::ty::print::NoTrimmedGuard::new();
         let _g2 = rustc_middle::ty::print::CrateNamePrefixGuard::new();
+        let _g3 = rustc_middle::ty::print::NoVisibleGuard::new();
         let krate = tcx.crate_name(rustc_hir::def_id::LOCAL_CRATE).to_string();
         let mut root = J::obj();
         root.put("crate", J::s(krate.clone()));
